@@ -85,9 +85,12 @@ C14Of(S, mks) == {Graph(s, "rp", TRUE, mk, FALSE, <<Ld(<<>>)>>, FALSE) : s \in {
 C15PatchOf(s, two) == {Graph(s, "rp", TRUE, FALSE, FALSE, <<Ld(P)>>, FALSE) : P \in Patches1(s) \cup (IF two THEN Patches2(s) ELSE {})}
 C15P(S, two) == UNION {C15PatchOf(s, two) : s \in {x \in S : HasOpt(x)}}
 Fails(s, maxat) == {[patch |-> P, fail |-> "raise", at |-> i, thr |-> 1] : P \in {<<>>, <<<<"w">>>>}, i \in SsOpt(s)}
-                   \cup {[patch |-> P, fail |-> "trunc", at |-> m, thr |-> 1] : P \in {<<>>, <<<<"w">>>>}, m \in 0..maxat}
+                   \* (a truncation point is located through the __new__/__setstate__ calls the harness can see)
+                   \cup (IF \A i \in 1..Len(s.g) : s.g[i].kind = "opt" => s.g[i].ss
+                         THEN {[patch |-> P, fail |-> "trunc", at |-> m, thr |-> 1] : P \in {<<>>, <<<<"w">>>>}, m \in 0..maxat}
+                         ELSE {})
 Seq2Of(s, maxat) ==
-  LET ps == {<<>>} \cup {P \in Patches1(s) : Len(P[1]) <= 2} IN
+  LET ps == {<<>>} \cup {P \in Patches1(s) : Len(P[1]) <= 2 /\ P[1][Len(P[1])] = "w"} IN
   {Graph(s, "rp", TRUE, FALSE, FALSE, <<f, Ld(P)>>, FALSE) : f \in Fails(s, maxat), P \in ps}             \* failure, then a load
   \cup {Graph(s, "rp", TRUE, FALSE, FALSE, <<Ld(P), Ld(Q)>>, FALSE) : P \in ps, Q \in ps}                 \* success, then a load
   \cup {Graph(s, "rp", TRUE, FALSE, FALSE, <<Ld(P), [Ld(Q) EXCEPT !.thr = 2]>>, TRUE) : P \in ps, Q \in ps}  \* two threads
@@ -97,10 +100,10 @@ Seq3Of(s, maxat) ==
   {Graph(s, "rp", TRUE, FALSE, FALSE, <<f, h, Ld(P)>>, FALSE) : f \in Fails(s, maxat), h \in Fails(s, maxat) \cup {Ld(<<<<"new">>>>)}, P \in ps}
 C15Seq3(S, maxat) == UNION {Seq3Of(s, maxat) : s \in {x \in S : HasOpt(x)}}
 \* ---- C13: graphs without opt-in objects under both flags; opt-in graphs with remote=False and under the standard operations ----
-C13Graphs(Splain, Sopt) == UNION {
+C13Graphs(Splain, Sopt, Sstd) == UNION {
   {Graph(s, "rp", rm, FALSE, FALSE, <<Ld(<<>>)>>, FALSE) : s \in Splain, rm \in BOOLEAN},
   {Graph(s, "rp", FALSE, mk, sn, <<Ld(<<>>)>>, FALSE) : s \in {x \in Sopt : HasOpt(x)}, mk \in BOOLEAN, sn \in BOOLEAN},
-  {Graph(s, o, FALSE, mk, sn, <<Ld(<<>>)>>, FALSE) : s \in {x \in Sopt : HasOpt(x)}, o \in {"pickle", "deepcopy", "mp"}, mk \in BOOLEAN, sn \in {TRUE}}}
+  {Graph(s, o, FALSE, mk, sn, <<Ld(<<>>)>>, FALSE) : s \in {x \in Sstd : HasOpt(x)}, o \in {"pickle", "deepcopy", "mp"}, mk \in BOOLEAN, sn \in {TRUE}}}
 
 All3 == {"opt", "plain", "cont"}
 \* (TLC evaluates every constant definition without parameters at start-up: the sets take a dummy argument)
@@ -112,16 +115,18 @@ S_three2(u)  == Shapes(1..3, All3, 2, TRUE)                         \* <= 3 node
 S_plain3(u)  == Shapes(1..3, {"plain", "cont"}, 1, FALSE)
 S_plain4(u)  == Shapes(1..4, {"plain", "cont"}, 2, FALSE)
 S_opt2(u)    == Shapes(1..2, All3, 1, TRUE)
+S_noflag3(u) == Shapes(1..3, All3, 1, FALSE)
 S_five(u)    == Shapes({5}, {"opt", "cont"}, 0, FALSE)              \* 5-node trees of opt-in objects and containers
 
 ScnSet(name) ==
-  CASE name = "C13_quick"    -> UNION {Cls(3), Leaf, C13Graphs(S_plain3(0), S_small(0))}
-    [] name = "C13_thorough" -> UNION {Cls(4), Leaf, C13Graphs(S_plain4(0), UNION {S_small(0), S_fourx(0)})}
+  CASE name = "C13_quick"    -> UNION {Cls(3), Leaf, C13Graphs(S_plain3(0), S_small(0), S_noflag3(0))}
+    [] name = "C13_thorough" -> UNION {Cls(4), Leaf, C13Graphs(S_plain4(0), UNION {S_small(0), S_fourx(0)}, UNION {S_small(0), S_fourx(0)})}
     [] name = "C14_quick"    -> C14Of(UNION {S_small(0), S_four(0)}, BOOLEAN)
     [] name = "C14_thorough" -> C14Of(UNION {S_three2(0), S_fourf(0), S_five(0)}, BOOLEAN)
     [] name = "C15_quick"    -> UNION {C15P(S_small(0), TRUE), C15P(S_four(0), FALSE), C15Seq(S_opt2(0), 2)}
-    [] name = "C15_thorough" -> UNION {C15P(UNION {S_three2(0), S_fourx(0)}, TRUE), C15Seq(S_small(0), 4), C15Seq3(S_opt2(0), 2)}
+    [] name = "C15_thorough" -> UNION {C15P(UNION {S_three2(0), S_fourx(0)}, TRUE), C15Seq(S_noflag3(0), 4), C15Seq(S_opt2(0), 3), C15Seq3(S_opt2(0), 2)}
     [] name = "tiny"         -> C14Of(S_opt2(0), {FALSE})
+    [] name = "wit"          -> UNION {Cls(2), {x \in Leaf : x.wrap = "bare"}, C13Graphs({}, S_opt2(0), {}), C15Seq(S_opt2(0), 1)}
     [] name = "env"          -> Rng(JsonDeserialize(IOEnv.SCN_FILE))     \* hand-picked scenarios (replays, smoke tests)
 \* the scenario set is named by the environment variable RP_SET and enumerated once, by the initial predicate
 MCInit == InitWith(ScnSet(IOEnv.RP_SET))
